@@ -50,6 +50,10 @@ def build(m):
                              'N:FileWrapper._anchor', 'N:ParseBuffer.items', 'N:ParseBuffer.loose'],
                    allow_exc=['CustomTokenError'], may_raise=['CustomTokenError'], prop=['C11']))
     DOC = TRef('DocumentTok')
+    m.ufunc('splitlines_keepends', [STR], TList(STR))
+    COMPLETE = ('len(arg_lines) == len(%s) and forall(lambda i: arg_lines[i] == '
+                "(%s[i] if %s[i].endswith('\\n') else %s[i] + '\\n'), 0, len(%s))")
+    NL = "forall(lambda i: arg_lines[i].endswith('\\n'), 0, len(arg_lines))"
     common = dict(
         ensures=[('is_none(token._root_node)', 'C11'), 'self.line_number == 1'],
         ensures_exc=[('is_none(token._root_node)', 'C11')],
@@ -59,7 +63,20 @@ def build(m):
                   'N:FileWrapper._index', 'N:FileWrapper.lines', 'N:FileWrapper.start_line',
                   'N:FileWrapper._anchor', 'N:ParseBuffer.items', 'N:ParseBuffer.loose'],
         allow_exc=['CustomTokenError'], prop=['C11', 'C15'])
+    X1 = 'splitlines_keepends(old(lines))'
+    X2 = 'old(lines)'
     m.add(Contract(BT + ':Document.__init__#str', [('self', DOC), ('lines', STR)],
-                   requires=['is_none(token._root_node)'], **common))
+                   requires=['is_none(token._root_node)'],
+                   call_asserts={BT + ':tokenize': [
+                       # C15: the line list handed to the tokenizer is complete(splitlines(text)) ...
+                       (COMPLETE % (X1, X1, X1, X1, X1), 'C15'),
+                       # ... and every line ends with a newline (establishes the data invariant LINES_NL)
+                       (NL, ['C15', 'C01'])]},
+                   **common))
     m.add(Contract(BT + ':Document.__init__#list', [('self', DOC), ('lines', TList(STR))],
-                   requires=['is_none(token._root_node)'], **common))
+                   requires=['is_none(token._root_node)'],
+                   call_asserts={BT + ':tokenize': [
+                       # ... and for a list of lines it is complete(list): the same function of the lines
+                       (COMPLETE % (X2, X2, X2, X2, X2), 'C15'),
+                       (NL, ['C15', 'C01'])]},
+                   **common))
